@@ -320,3 +320,9 @@ package tmconsensus
 //@   loop toFullProofMap.1 invariant visited-targets: forall h string :: {visited(1)[h]} visited(1)[h] ==> (h in c.BlockSignatures)
 //@   loop toFullProofMap.1 invariant out-message: forall h string :: {rawdom(out)[h]} h in out ==> pmsg(mapvals(out)[h]) == precommitMsg(height, round, h)
 //@   loop toFullProofMap.1 invariant target: vt.Height == height && vt.Round == round
+
+//@ func ValidatorsToVotePowers
+//@   property C10
+//@   ensures len(result) == len(vs) && fresh(result)
+//@   modifies nothing
+//@   loop 1 invariant out-is-private: fresh(out) && len(out) == len(vs)
